@@ -259,6 +259,8 @@ class AsyncioTaskGroup:
         coro = args[0]
         interp.traces.setdefault("spawned", []).append(coro)
         _bump_live(interp, 1)
+        if "raise_shutdown" in str(getattr(coro, "label", "")):
+            obj.fields["raising_children"] = True
         return SObj("asyncio:Task", {"coro": coro, "cancelled": False}, tag="task")
 
     def m___aenter__(self, interp, obj, args, kwargs, fr):
@@ -267,6 +269,10 @@ class AsyncioTaskGroup:
     def m___aexit__(self, interp, obj, args, kwargs, fr):
         interp.traces.setdefault("joined", []).append(("join", _timer_live(interp)))
         interp.yield_point(fr, "TaskGroup.__aexit__")  # waits for all children
+        if obj.fields.get("raising_children"):
+            # a child whose only way to end is to raise (utils.raise_shutdown): the group ends with
+            # an exception group of the children's errors
+            raise PyRaise(SObj(BaseExceptionGroup, {"args": ()}), fr.where())
         return None
 
 
@@ -446,6 +452,15 @@ class AsyncioTask:
 
     def m_done(self, interp, obj, args, kwargs, fr):
         return SymBool(z3.Bool(interp.ctx.fresh_name("task.done")))
+
+    def m_exception(self, interp, obj, args, kwargs, fr):
+        # of a task that is done: None, or the exception it ended with
+        if interp.ctx.choose(2, f"task.exception@{fr.line}", ["none", "exception"]) == 0:
+            return None
+        return SObj(Exception, {"args": (), "from_task": obj})
+
+    def m_add_done_callback(self, interp, obj, args, kwargs, fr):
+        return None
 
 
 @register(name="trio:CancelScope", real=trio.CancelScope)
